@@ -1784,9 +1784,12 @@ class MasterAxisStatus(SimpleAxisStatus):
                         int(round(self.max_velocity * 1000000)),
                     )
 
-                    v_Ist = int(round(
-                        (calc_position - p_Ist) / delta_time
-                    ))
+                    if delta_time > 0:
+                        v_Ist = int(round(
+                            (calc_position - p_Ist) / delta_time
+                        ))
+                    else:
+                        v_Ist = 0
 
                     p_Ist = calc_position
 
